@@ -23,7 +23,13 @@ RULE = ("a scenario is one abstract input (phased multi-sample VCF over 1-2 chro
         "farther apart than the cutoff (separate decisions), different haplotypes / phase sets, varying evidence; 'hazard' scenarios are five small input classes inside the statement that "
         "exposed defects of the code as of round 1 (mates on opposite strands: repaired by a5fcdae; alignment overlapping two "
         "regions; stale tags on an unplaced unmapped read; barcode cloud touching two phase sets with equal scores; one barcode "
-        "in two samples). A scenario is non-trivial if the run succeeded and its output has "
+        "in two samples). Decoration 'aux' (60 % of the non-hazard scenarios): every alignment additionally carries 0 to 30 "
+        "auxiliary fields of every BAM value type (A, H, Z incl. one-character and numeric-looking strings, integers of every "
+        "storage width c/C/s/S/i/I, f, B arrays of every element type) in front of, between and behind the serial/BX/stale "
+        "HP,PS,PC tags; input and output are projected to the ordered typed field list (SAM text of each field + "
+        "get_tags(with_value_type=True)) and clause OtherTags demands equality. Option variants the output must not depend on: "
+        "--output-threads 1/2 (alternating between the two runs of a scenario), --skip-missing-contigs. "
+        "A scenario is non-trivial if the run succeeded and its output has "
         "a tagged alignment and an untagged alignment whose read observed a phased heterozygous variant (a tie)")
 ASSUMPTIONS = [
     "the alleles a read shows are those the harness built into it (error-free copy of an allele vector, SNVs and unshiftable "
@@ -39,6 +45,11 @@ ASSUMPTIONS = [
     "--regions are disjoint and ascending within a chromosome (borders aligned with read starts/ends, adjacent or with gaps, reads "
     "spanning two regions); chromosomes may be requested in another order than in the BAM: the statement then does not fix the "
     "output order and only 'every fetched alignment exactly once' is judged; PC is exempt from Conservation, its value is not judged",
+    "OtherTags compares the auxiliary fields at the level of SAM: tag, type A/i/f/Z/H/B+element type, value, order; the storage "
+    "width of a scalar integer (c/C/s/S/i/I, which SAM text does not show) is not part of an alignment's identity; HP/PS/PC are "
+    "left out of the list, so where the three tags sit among the others is not judged",
+    "--skip-missing-contigs is only varied on worlds in which every contig with alignments is declared in the VCF (the option "
+    "then has nothing to skip); what it does to reads on undeclared contigs is outside this check",
     "TLC evaluates the definitions of Haplotag.tla correctly; pysam/htslib parse the BAM files",
 ]
 
@@ -514,6 +525,16 @@ def scenarios(ctx):
     # (mutation runs, and --selftest whose corrupted trace must be the only reason for a rejection)
     if not os.environ.get("WV_C10_NO_HAZARD") and "--selftest" not in sys.argv:
         scs += _hazard_scenarios(rng)
+    # decorations / option variants drawn from a separate generator (the abstract worlds above are the same as without them):
+    # "aux": every alignment carries further auxiliary fields of every BAM value type; threads0: --output-threads 1/2 on the
+    # first run (the exchanged-haplotype run uses the other value); skip_missing: --skip-missing-contigs
+    drng = random.Random(rng.randrange(1 << 30))
+    for sc in scs:
+        if sc["kind"].startswith("hazard:"):
+            continue
+        sc["aux"] = drng.random() < 0.6
+        sc["opts"]["threads0"] = 1 if drng.random() < 0.3 else 0
+        sc["opts"]["skip_missing"] = drng.random() < 0.3
     ctx.notes["scenario_kinds"] = {k: sum(1 for s in scs if s["kind"] == k) for k in sorted({s["kind"] for s in scs})}
     return scs
 
@@ -614,6 +635,40 @@ def _build_alignment(sc, rng, chrom, a, zone_side):
 FLAG = {"prim": 0, "dup": 1024, "sec": 256, "sup": 2048, "low": 0, "unm": 4, "unmp": 4}
 
 
+def _aux_fields(rng):
+    """Auxiliary fields of every BAM value type for one alignment, as (tag, value, type) for pysam's set_tags: printable
+    character (A), hex string (H), strings (Z; also one-character, numeric-looking and punctuated ones), integers of every
+    storage width (c C s S i I; small values in wide fields), float (f), numeric arrays of every element type (B).
+    -> (fields in front of the serial tag, fields behind it, fields behind the stale HP/PS/PC tags)"""
+    import array
+    hexs = lambda n: "".join(rng.choice("0123456789ABCDEF") for _ in range(2 * n))
+    pool = [
+        ("tp", rng.choice("PSIi"), "A"), ("XS", rng.choice("+-"), "A"), ("ts", rng.choice("+-.?"), "A"),
+        ("XA", rng.choice("7Z~!"), "A"),
+        ("XH", hexs(rng.randint(1, 6)), "H"), ("Xh", hexs(1), "H"),
+        ("XZ", rng.choice(["P", "7", "-3", "1.5", "+", "hello world", "a:b;c,d", "1A", "chr1,+100,5M,0;"]), "Z"),
+        ("MD", f"{rng.randint(0, 30)}A{rng.randint(0, 30)}", "Z"), ("Xz", rng.choice("PSI+7"), "Z"),
+        ("NM", rng.randint(0, 200), "C"), ("Xc", rng.randint(-128, -1), "c"), ("Xs", rng.randint(-32768, -129), "s"),
+        ("XV", rng.randint(256, 65535), "S"), ("Xi", rng.randint(-2000000000, -32769), "i"),
+        ("XU", rng.randint(65536, 4000000000), "I"), ("Xw", rng.randint(0, 100), "i"), ("XW", rng.randint(0, 100), "I"),
+        ("Xv", rng.randint(0, 100), "s"), ("AS", rng.randint(0, 5000), "S"),
+        ("Xf", rng.choice([0.1, -2.5, 1e-8, 3e10, 0.0, 1.0, 7.0, 1 / 3]), "f"), ("de", rng.random(), "f"),
+        ("Ba", array.array("b", [rng.randint(-128, 127) for _ in range(rng.randint(1, 4))])),
+        ("Bb", array.array("B", [rng.randint(0, 255) for _ in range(rng.randint(1, 4))])),
+        ("Bc", array.array("h", [rng.randint(-32768, 32767) for _ in range(rng.randint(1, 4))])),
+        ("Bd", array.array("H", [rng.randint(0, 65535) for _ in range(rng.randint(1, 4))])),
+        ("Be", array.array("i", [rng.randint(-2000000000, 2000000000) for _ in range(rng.randint(1, 4))])),
+        ("Bf", array.array("I", [rng.randint(0, 4000000000) for _ in range(rng.randint(1, 4))])),
+        ("Bg", array.array("f", [rng.choice([0.1, 0.5, -3.25, 1e-6, 2.0]) for _ in range(rng.randint(1, 4))])),
+        ("Bh", array.array("B", [7])), ("Bi", array.array("i", [1, 2, 3])),      # small values in wide elements
+    ]
+    n = rng.choice([0, 1, 1, 2, 3, 5, 8, len(pool)])
+    parts = ([], [], [])
+    for f in rng.sample(pool, n):
+        parts[rng.choice([0, 1, 1, 2])].append(f)
+    return parts
+
+
 def _materialise(sc, d):
     """writes VCF(s), BAM, FASTA; returns paths and the abstract alignments keyed by XI"""
     from wv import world as W
@@ -653,6 +708,8 @@ def _materialise(sc, d):
     reads = []
     absaln = {}
     xi = 0
+    # decoration "aux": a separate generator, so that the worlds are the same with and without the decoration
+    arng = random.Random(sc["seed"] * 13 + 5)
     for gi, g in enumerate(sc["groups"]):
         name = f"r{gi}"
         built = []
@@ -688,12 +745,14 @@ def _materialise(sc, d):
                 else:
                     r["mate"] = {"ref": other["chrom"], "pos": orec["pos"]}
             r["flag"] = flag
-            tags = [("XI", xi)]
+            front, mid, back = _aux_fields(arng) if sc.get("aux") else ([], [], [])
+            tags = front + [("XI", xi)]
             if g["bx"]:
                 tags.append(("BX", g.get("bxraw") or f"BC{g['rg']}-{g['bx']}"))
+            tags += mid
             if a["stale"]:
                 tags += [("HP", a["stale"][0]), ("PS", a["stale"][1]), ("PC", a["stale"][2])]
-            r["tags"] = tags
+            r["tags"] = tags + back
             if g["rg"]:
                 r["rg"] = sc["rgs"][g["rg"] - 1][0]
             reads.append(r)
@@ -826,20 +885,60 @@ def _regions(sc, m, recs):
 
 
 _KEEP = ("HP", "PS", "PC")
+_INTS = "cCsSiI"
 
 
-def _project(rec, intern):
+def _jsonable(v):
+    if isinstance(v, float):
+        return round(v, 4)
+    if hasattr(v, "typecode"):                       # array.array of a B field
+        return [round(x, 4) if isinstance(x, float) else x for x in v]
+    return v
+
+
+def _read_records(path):
+    """Every field of every alignment in file order.  "tags": (tag, value) sorted by tag as pysam's get_tags() reports them
+    (the view of W.read_bam_records); "aux": the auxiliary fields in RECORD ORDER with their value types, once as the SAM
+    text of the field (TAG:TYPE:VALUE, which tells A from Z from H and shows the element type of B arrays) and once as
+    (tag, BAM type, exact value) from get_tags(with_value_type=True) with the storage width of scalar integers reduced
+    to 'i' (SAM does not distinguish c/C/s/S/i/I; which width a writer picks is not part of the record's content)."""
+    import pysam
+    out = []
+    with pysam.AlignmentFile(path, check_sq=False) as f:
+        for a in f.fetch(until_eof=True):
+            typed = []
+            for t, v, ty in a.get_tags(with_value_type=True):
+                if hasattr(v, "typecode"):
+                    typed.append([t, "B" + v.typecode, [repr(x) for x in v]])
+                else:
+                    typed.append([t, "i" if ty in _INTS else ty, repr(v)])
+            out.append({
+                "name": a.query_name, "flag": a.flag, "ref": a.reference_id, "pos": a.reference_start, "mapq": a.mapping_quality,
+                "cigar": a.cigarstring, "seq": a.query_sequence,
+                "qual": pysam.qualities_to_qualitystring(a.query_qualities) if a.query_qualities is not None else None,
+                "mref": a.next_reference_id, "mpos": a.next_reference_start, "tlen": a.template_length,
+                "tags": sorted(((t, _jsonable(v)) for t, v in a.get_tags()), key=lambda x: x[0]),
+                "aux": {"sam": a.to_string().split("\t")[11:], "typed": typed},
+            })
+    return out
+
+
+def _project(rec, intern, auxintern):
+    """-> rest: id of the record content without HP/PS/PC (fixed columns + values of the other tags), hp, ps, pc,
+    tag dict, aux: id of the ordered, typed list of the other auxiliary fields"""
     tags = {t: v for t, v in rec["tags"]}
-    rest = json.dumps({k: v for k, v in rec.items() if k != "tags"}, sort_keys=True) + json.dumps(
+    rest = json.dumps({k: v for k, v in rec.items() if k not in ("tags", "aux")}, sort_keys=True) + json.dumps(
         [[t, v] for t, v in rec["tags"] if t not in _KEEP])
     rid = intern.setdefault(rest, len(intern) + 1)
+    aux = json.dumps([[f for f in rec["aux"]["sam"] if f[:2] not in _KEEP], [x for x in rec["aux"]["typed"] if x[0] not in _KEEP]])
+    aid = auxintern.setdefault(aux, len(auxintern) + 1)
 
     def iv(t):
         v = tags.get(t)
         if v is None:
             return -1
         return int(v) if isinstance(v, int) or (isinstance(v, str) and v.lstrip("-").isdigit()) else -2
-    return rid, iv("HP"), iv("PS"), iv("PC"), tags
+    return rid, iv("HP"), iv("PS"), iv("PC"), tags, aid
 
 
 def drive(sc):
@@ -850,13 +949,13 @@ def drive(sc):
     d = tempfile.mkdtemp(prefix="c10-", dir=base)
     try:
         m = _materialise(sc, d)
-        inrecs = W.read_bam_records(m["bam"])
-        intern, names, bxs = {}, {}, {}
+        inrecs = _read_records(m["bam"])
+        intern, auxintern, names, bxs = {}, {}, {}, {}
         rgidx = {rg: i + 1 for i, (rg, _) in enumerate(sc["rgs"])}
         aln = []
         pre = []
         for r in inrecs:
-            rid, hp, ps, pc, tags = _project(r, intern)
+            rid, hp, ps, pc, tags, aid = _project(r, intern, auxintern)
             a = m["absaln"][tags["XI"]]
             unm = bool(r["flag"] & 4)
             placed = r["ref"] >= 0
@@ -868,7 +967,7 @@ def drive(sc):
                  "sup": bool(r["flag"] & 2048), "rev": bool(r["flag"] & 16), "mapq": r["mapq"], "rg": rgidx.get(tags.get("RG"), 0),
                  "chrom": r["ref"] + 1 if placed else 0, "pos": r["pos"] if placed else 0, "end": end if placed else 0,
                  "bx": bxs.setdefault(tags["BX"], len(bxs) + 1) if "BX" in tags else 0,
-                 "obs": a["obs"], "rest": rid, "stale": hp != -1 or ps != -1 or pc != -1}
+                 "obs": a["obs"], "rest": rid, "aux": aid, "stale": hp != -1 or ps != -1 or pc != -1}
             aln.append(e)
             pre.append(e)
         regions, absregions = _regions(sc, m, pre)
@@ -904,6 +1003,9 @@ def drive(sc):
             outp = os.path.join(d, f"out{ri}.bam")
             exc = ""
             out = []
+            # option variants the output must not depend on: --output-threads (alternating between the runs of a scenario),
+            # --skip-missing-contigs (every contig with alignments is in the VCF header of these worlds)
+            threads = 1 + (opts.get("threads0", 0) + ri) % 2
             try:
                 run_haplotag(variant_file=vcf, alignment_file=m["bam"], output=outp,
                              reference=m["fasta"] if sc["mode"] == "ref" else False,
@@ -911,15 +1013,17 @@ def drive(sc):
                              linked_read_distance_cutoff=opts.get("cutoff", 50000),
                              given_samples=list(given) if given else None, ignore_read_groups=opts["ignore_rg"],
                              haplotag_list=os.path.join(d, f"list{ri}.tsv") if opts["list"] else None,
-                             tag_supplementary=opts["tag_supp"], ploidy=sc["ploidy"])
-                for r in W.read_bam_records(outp):
-                    rid, hp, ps, pc, _ = _project(r, intern)
-                    out.append({"rest": rid, "hp": hp, "ps": ps, "pc": pc})
+                             tag_supplementary=opts["tag_supp"], ploidy=sc["ploidy"],
+                             skip_missing_contigs=bool(opts.get("skip_missing")), output_threads=threads)
+                for r in _read_records(outp):
+                    rid, hp, ps, pc, _, aid = _project(r, intern, auxintern)
+                    out.append({"rest": rid, "hp": hp, "ps": ps, "pc": pc, "aux": aid})
             except Exception as e:          # an exception of the command is an observation, not a harness failure
                 exc = type(e).__name__
                 out = []
             events.append({"ev": "Haplotag", "W": world(swap), "out": out, "exc": exc, "swap": list(swap) if swap else [],
-                           "nstale": sum(1 for a in aln if a["stale"]), "kind": sc["kind"]})
+                           "nstale": sum(1 for a in aln if a["stale"]), "kind": sc["kind"], "threads": threads,
+                           "skipMissing": bool(opts.get("skip_missing")), "auxFields": bool(sc.get("aux"))})
         return events
     finally:
         shutil.rmtree(d, ignore_errors=True)
@@ -1023,7 +1127,8 @@ def selftest_corrupt(events):
 
 MANIFEST = {
     "text": "Haplotag.tla states the property on abstract inputs (alignments with the alleles they show, phased calls per sample, "
-            "regions, options): Conservation, Decision (unique arg-max of summed allele quality inside the reported phase set), "
+            "regions, options): Conservation, OtherTags (C10_Trace: the auxiliary fields other than HP/PS/PC keep order, value "
+            "type and value; inputs carry fields of every BAM value type), Decision (unique arg-max of summed allele quality inside the reported phase set), "
             "UntaggedWhen (no phased het observed or ties), IneligibleUntagged, TaggedWhen, Symmetry under exchanging the "
             "haplotypes of a phase set. MC_Haplotag.tla is the two-pass design (scan in any order, decide, emit) run as a product "
             "with the exchanged-haplotype run; TLC checks all clauses on every tiny world. Gen_C10 lets TLC enumerate call "
